@@ -2,6 +2,7 @@ package main
 
 import (
 	"fmt"
+	"go/types"
 	"math"
 	"regexp"
 	"sort"
@@ -25,6 +26,85 @@ type convOutcome struct {
 	same                  bool
 	conds                 []string
 	why                   string
+}
+
+// zeroTimeUnixSeconds: the instant 0001-01-01T00:00:00Z, for which time.Time.IsZero holds, counted in Unix seconds
+// (the host's documented value: 1969 years x 365 days + 477 leap days, times 86400, before the epoch).
+const zeroTimeUnixSeconds = -(1969*365 + 1969/4 - 1969/100 + 1969/400) * 86400
+
+// wholeTexts: whole numbers whose decimal text is read back exactly by any reader (magnitude below 2^53), of both
+// signs: small ones, the bounds of 32 bits, powers of ten and of two up to 2^53-1, and the counts around the largest
+// number of milliseconds / microseconds a time span holds (numbers that are not time spans must not be read as such).
+func wholeTexts(asText bool) []interface{} {
+	var out []interface{}
+	for _, n := range []int64{0, 1, 7, 255, 65536, math.MaxInt32, int64(math.MaxInt32) + 1, 4294967296, 1700000000000, 9223372036854, 9223372036855, 9223372036, 9223372037,
+		10000000000000, 123456789012345, int64(1) << 40, int64(1) << 50, int64(1)<<53 - 1, 9007199254740881, 1000000000000000} {
+		for _, k := range []int64{n, -n} {
+			if k == 0 && n != 0 {
+				continue
+			}
+			if asText {
+				out = append(out, lit(strconv.FormatInt(k, 10)))
+			} else {
+				out = append(out, k)
+			}
+		}
+	}
+	return append(out[:1], out[2:]...) // 0 once
+}
+
+// convNumerals gives the converters of the commons module (another module: opaque to the machine) their meaning
+// where it is beyond doubt: whole numbers of magnitude below 2^53 and truth values as decimal / true-false texts and
+// back, and a plain whole number read as a time span counts milliseconds (in the host's int64 nanoseconds).
+var reWholeText = regexp.MustCompile(`^(0|-?[1-9][0-9]{0,15})$`)
+
+func convNumerals(m *mach, fn *ssa.Function, args []mv) (mv, bool) {
+	if fn.Signature.Recv() == nil || len(args) != 2 || !strings.HasSuffix(fnFullName(fn), "Converter."+fn.Name()) || !strings.Contains(fnFullName(fn), "commons-gox/convert.") {
+		return nil, false
+	}
+	a, plain := args[1], true
+	if i, isIface := a.(mIface); isIface {
+		_, plain = i.t.(*types.Basic) // a time span or another named type has a text of its own
+		a = i.v
+	}
+	whole := func(s string) (int64, bool) {
+		if !reWholeText.MatchString(s) {
+			return 0, false
+		}
+		n, err := strconv.ParseInt(s, 10, 64)
+		return n, err == nil && n < int64(1)<<53 && n > -(int64(1)<<53)
+	}
+	switch fn.Name() {
+	case "ToString":
+		switch x := a.(type) {
+		case int64:
+			if plain && x < int64(1)<<53 && x > -(int64(1)<<53) {
+				return strconv.FormatInt(x, 10), true
+			}
+		case bool:
+			if plain {
+				return strconv.FormatBool(x), true
+			}
+		}
+		return nil, false
+	case "ToInteger", "ToLong":
+		if s, ok := a.(string); ok {
+			if n, ok := whole(s); ok {
+				return n, true
+			}
+		}
+	case "ToBoolean":
+		if s, ok := a.(string); ok && (s == "true" || s == "false") {
+			return s == "true", true
+		}
+	case "ToDuration":
+		if s, ok := a.(string); ok {
+			if n, ok := whole(s); ok {
+				return n * 1000000, true // time.Duration(n) * time.Millisecond in the host's arithmetic
+			}
+		}
+	}
+	return decimalNumerals(m, fn, args)
 }
 
 func (h *vxHarness) runConvert(t1, t2 string) []convOutcome {
@@ -305,17 +385,48 @@ func (c *Ctx) convxRun() []*opsVerdict {
 			secs := append(counts(1), int64(1)<<53+1, -(int64(1)<<53 + 1), int64(9000000000000001), int64(1)<<62+1)
 			// the host's time.Unix on constants is a date-time that remembers its seconds (time.Unix(s, 0).Unix() == s for every s)
 			reUnix := regexp.MustCompile(`^time\.Unix\((-?[0-9]+),0\)$`)
+			// … and is an instant like any other: it is the zero time exactly for the seconds count of 0001-01-01T00:00:00Z,
+			// and two of them compare as their seconds counts do
+			unixSecs := func(a mv) (int64, bool) {
+				if sy, ok := a.(*mSym); ok {
+					if mm := reUnix.FindStringSubmatch(sy.name); mm != nil {
+						n, err := strconv.ParseInt(mm[1], 10, 64)
+						return n, err == nil
+					}
+				}
+				return 0, false
+			}
 			h.m.external = func(m *mach, fn *ssa.Function, args []mv) (mv, bool) {
-				if fnFullName(fn) == "time.Time.Unix" && len(args) == 1 {
-					if sy, ok := args[0].(*mSym); ok {
-						if mm := reUnix.FindStringSubmatch(sy.name); mm != nil {
-							n, err := strconv.ParseInt(mm[1], 10, 64)
-							return n, err == nil
-						}
+				name := fnFullName(fn)
+				if !strings.HasPrefix(name, "time.Time.") || len(args) == 0 {
+					return convNumerals(m, fn, args)
+				}
+				s0, ok := unixSecs(args[0])
+				if !ok {
+					return nil, false
+				}
+				if len(args) == 1 {
+					switch fn.Name() {
+					case "Unix":
+						return s0, true
+					case "IsZero":
+						return s0 == zeroTimeUnixSeconds, true
+					}
+					return nil, false
+				}
+				if s1, ok := unixSecs(args[1]); ok && len(args) == 2 {
+					switch fn.Name() {
+					case "Equal":
+						return s0 == s1, true
+					case "Before":
+						return s0 < s1, true
+					case "After":
+						return s0 > s1, true
 					}
 				}
 				return nil, false
 			}
+			secs = append(secs, int64(zeroTimeUnixSeconds), int64(zeroTimeUnixSeconds)+1, int64(zeroTimeUnixSeconds)-1, int64(-62135596800000))
 			chains := []struct {
 				t1, t2 string
 				vals   []interface{}
@@ -331,6 +442,13 @@ func (c *Ctx) convxRun() []*opsVerdict {
 				{"Long", "TimeSpan", counts(1000000)},
 				{"Integer", "DateTime", secs},
 				{"Long", "DateTime", secs},
+				// whole numbers and truth values as texts, and the texts of whole numbers and truth values as values
+				{"Integer", "String", wholeTexts(false)},
+				{"Long", "String", wholeTexts(false)},
+				{"Boolean", "String", []interface{}{true, false}},
+				{"String", "Integer", wholeTexts(true)},
+				{"String", "Long", wholeTexts(true)},
+				{"String", "Boolean", []interface{}{lit("true"), lit("false")}},
 			}
 			for _, ch := range chains {
 				for _, val := range ch.vals {
